@@ -40,7 +40,7 @@ def removable_keys(ver, full):
     return out
 
 
-def check_vector(P, ver, s):
+def check_vector(P, ver, s, copies=False):
     L = lib()
     P.evaluations += 1
     case = {"ver": ver, "vector": s}
@@ -72,6 +72,37 @@ def check_vector(P, ver, s):
         c = dict(case, sort=sort, minimal=minimal)
         judge_single(P, ver, s, prefix, m, eff, sc, d, sort, minimal, c)
     judge_relations(P, ver, m, sc, res, case)
+    if copies or P.evaluations % 4 == 0:
+        judge_copies(P, ver, o, res, case)
+
+
+def _copies():
+    import copy
+    import pickle
+    return [("copy.copy", copy.copy), ("copy.deepcopy", copy.deepcopy)] + \
+        [("pickle-%d" % pr, (lambda pr: lambda o: pickle.loads(pickle.dumps(o, pr)))(pr)) for pr in (2, pickle.HIGHEST_PROTOCOL)]
+
+
+def judge_copies(P, ver, o, res, case):
+    """A copy of the object (copy / deepcopy / pickle round trip) is still 'the object built from the
+    supplied string': its JSON must be identical.  Copying that RAISES is not judged -- no property
+    promises that the objects can be copied."""
+    for name, fn in _copies():
+        ok, o2 = obs.call(fn, o)
+        if not ok or type(o2) is not type(o):
+            P.stratum("copy-not-supported:" + name)
+            continue
+        P.ev("copies")
+        for (sort, minimal), d in res.items():
+            ok, d2 = obs.call(o2.as_json, sort=sort, minimal=minimal)
+            if not ok:
+                P.violation("copies", "C11:v%s:as_json-of-a-copy-raises:%s" % (ver, name.split("-")[0]), dict(case, copy=name), error=repr(d2))
+                break
+            if d2 != d or list(d2) != list(d):
+                bad = [k for k in d if k not in d2 or d2[k] != d[k]] or ["key-order"]
+                P.violation("copies", "C11:v%s:as_json-of-a-copy-differs:%s:%s" % (ver, name.split("-")[0], bad[0]), dict(case, copy=name),
+                            original=d.get(bad[0]) if bad[0] in d else None, copied=d2.get(bad[0]) if isinstance(d2, dict) else repr(d2))
+                break
 
 
 def judge_single(P, ver, s, prefix, m, eff, sc, d, sort, minimal, c):
@@ -168,7 +199,7 @@ def judge_relations(P, ver, m, sc, res, case):
 
 
 def check_case(P, case):
-    check_vector(P, case["ver"], case["vector"])
+    check_vector(P, case["ver"], case["vector"], copies="copy" in case)
 
 
 def extra_vectors(ver):
